@@ -3,7 +3,7 @@
    Model/C17_Lifecycle.v.  `run s evs` executes an ARBITRARY list of events (user calls,
    incoming messages, transport failures) from state s. *)
 From Coq Require Import ZArith List Bool.
-From TV Require Import Model.C17_Lifecycle Proofs.C17_Lifecycle.
+From TV Require Import Model.C17_Lifecycle Model.C17_Sessions Proofs.C17_Lifecycle Proofs.C17_Sessions.
 Import ListNotations.
 Open Scope Z_scope.
 
@@ -177,6 +177,55 @@ Theorem fatal_alert_surfaced_in_handshake : forall s l d rest,
              sess s' = option_map (fun _ => false) (sess s).
 Proof. exact hs_recv_fatal. Qed.
 
+(* ---- session objects are shared by reference (Model/C17_Sessions.v) ---------------------- *)
+(* In a world of any number of connections and session objects, along ANY sequence of events
+   (events on any connection, new sessions, resumptions adopting an existing object, lookups):
+   no object is lost and a flag that is off stays off *)
+Theorem shared_session_flag_only_toggles_off : forall evs w w' os, wrun w evs = (w', os) ->
+  (length (store w) <= length (store w'))%nat /\
+  forall l, (l < length (store w))%nat -> flag w l = false -> flag w' l = false.
+Proof. exact wrun_store. Qed.
+
+(* ... hence every later lookup of that object (SessionCache[...] / Session.valid()) fails *)
+Theorem dead_session_is_never_resumed : forall evs w w' os l, (l < length (store w))%nat -> flag w l = false ->
+  wrun w evs = (w', os) ->
+  forall k, nth_error evs k = Some (WLookup l) -> nth_error os k = Some (WFound false).
+Proof. exact wrun_lookups_false. Qed.
+
+(* a step on ANY connection that leaves that connection's session flag off leaves it off in the
+   object itself, hence in the view of every connection that shares the object *)
+Theorem failure_on_any_connection_clears_shared_flag : forall w i c l ev s' o,
+  nth_error (conns w) i = Some c -> sref c = Some l -> (l < length (store w))%nat -> is_setsess ev = false ->
+  step (set_sess (view w c) (cst c)) ev = (s', o) -> sess s' = Some false ->
+  exists w', wstep w (WConn i ev) = (w', WO o) /\ flag w' l = false /\ length (store w') = length (store w) /\
+    (forall j c', nth_error (conns w') j = Some c' -> sref c' = Some l -> view w' c' = Some false).
+Proof. exact failure_clears. Qed.
+
+(* a fatal or warning alert (other than close_notify) read on any connection of session l --
+   the one that created it or one that resumed it: TLSRemoteAlert, and the session is dead for
+   all its connections, for the cache, and for every later resumption attempt *)
+Theorem fatal_alert_on_any_connection_invalidates_session : forall w i c l lv d rest mx mn,
+  nth_error (conns w) i = Some c -> sref c = Some l -> (l < length (store w))%nat ->
+  closed (cst c) = false -> wq (cst c) = [] -> bufw (cst c) = false -> inq (cst c) = IAlert lv d :: rest -> d <> 0 ->
+  (zlen (rbuf (cst c)) <? mn) || is_nil (rbuf (cst c)) = true ->
+  exists w', wstep w (WConn i (URead mx mn)) = (w', WO (OExc (XRemote d))) /\ flag w' l = false /\
+    (forall j c', nth_error (conns w') j = Some c' -> sref c' = Some l -> view w' c' = Some false) /\
+    (forall evs w2 os, wrun w' evs = (w2, os) ->
+       flag w2 l = false /\ forall k, nth_error evs k = Some (WLookup l) -> nth_error os k = Some (WFound false)).
+Proof. exact alert_on_shared_session. Qed.
+
+(* the same for a transport failure while reading *)
+Theorem transport_failure_on_any_connection_invalidates_session : forall w i c l e mx mn,
+  nth_error (conns w) i = Some c -> sref c = Some l -> (l < length (store w))%nat ->
+  closed (cst c) = false -> wq (cst c) = [] -> bufw (cst c) = false -> inq (cst c) = [] ->
+  sock_open (cst c) = true -> rxe (cst c) = RxErr e ->
+  (zlen (rbuf (cst c)) <? mn) || is_nil (rbuf (cst c)) = true ->
+  exists w', wstep w (WConn i (URead mx mn)) = (w', WO (OExc (XSock e))) /\ flag w' l = false /\
+    (forall j c', nth_error (conns w') j = Some c' -> sref c' = Some l -> view w' c' = Some false) /\
+    (forall evs w2 os, wrun w' evs = (w2, os) ->
+       flag w2 l = false /\ forall k, nth_error evs k = Some (WLookup l) -> nth_error os k = Some (WFound false)).
+Proof. exact sock_error_on_shared_session. Qed.
+
 (* the model's loops are totalised with fuel; running out would be the outcome OFuel, which
    no theorem above accepts as a normal return or an exception -- and it never happens *)
 Theorem model_never_out_of_fuel : forall s ev, snd (step s ev) <> OFuel.
@@ -196,3 +245,11 @@ Proof. vm_compute. repeat split. Qed.
 
 Example ex_tx_dead : tx_dead (fst (run ex_in_handshake [NSendBreak 0 32])) 32.
 Proof. vm_compute. split; [reflexivity|]. exists 0. split; [reflexivity|]. intros X; discriminate X. Qed.
+
+(* a session created on connection 0, resumed on connection 1 where a fatal alert arrives: the
+   lookup succeeds before and fails after, and connection 0 sees the flag off as well *)
+Example ex_shared_session :
+  let '(w', os) := wrun w_example [WLookup 0; WConn 1 (URead None 1); WLookup 0; WConn 0 (URead None 1); WLookup 0] in
+  os = [WFound true; WO (OExc (XRemote 80)); WFound false; WO (ORet []); WFound false] /\
+  conn_view w' 0 = Some false /\ conn_view w' 1 = Some false.
+Proof. exact w_example_run. Qed.
